@@ -1086,15 +1086,13 @@ fn gen_rec(r: &mut Rng, kind: &str, specs: &[String]) -> String {
                     let ts = if !CHRONO && r.chance(1, 4) {
                         small_value(r)
                     } else {
-                        let base = format!(
-                            "{:04}-{:02}-{:02}T{:02}:{:02}:{:02}",
-                            r.range(1970, 2100),
-                            r.range(1, 12),
-                            r.range(1, 28),
-                            r.below(24),
-                            r.below(60),
-                            r.below(60)
-                        );
+                        // calendar corner cases: leap days (also of the century years divisible by 400), month ends
+                        let (y, mo, d) = if r.chance(1, 8) {
+                            *r.pick(&[(2000usize, 2usize, 29usize), (2400, 2, 29), (2024, 2, 29), (1972, 2, 29), (2023, 12, 31), (1999, 1, 31), (2096, 2, 29)])
+                        } else {
+                            (r.range(1970, 2100), r.range(1, 12), r.range(1, 28))
+                        };
+                        let base = format!("{:04}-{:02}-{:02}T{:02}:{:02}:{:02}", y, mo, d, r.below(24), r.below(60), r.below(60));
                         // valid RFC 3339 in other spellings than MPD's: the value must be kept as sent
                         match r.below(9) {
                             0 => format!("{base}+02:00"),
